@@ -162,7 +162,7 @@ def cases():
     for t in T:
         group, name, args, body = t[:4]
         local = t[4] if len(t) > 4 else ''
-        sizes = [{'n': 3}, {'n': 4}, {'n': 5}] if ' n ' in f' {args} ' else [{}]
+        sizes = [{'n': 4}, {'n': 3}, {'n': 5}] if ' n ' in f' {args} ' else [{}]
         if len(t) > 5:
             sizes = t[5]
         out.append(Case(f'{group}/{name}', kern(args, body, local), 'kern', sizes, None, 'transpile', must_change=False,
